@@ -37,30 +37,50 @@ def replay_shape(name, args):
   i = int(m.group(0)) if m else 0
   text, pred, must_reject = variants_list[i]
   d = tempfile.mkdtemp(prefix='logica_verif_c19r_')
-  try:
-    p = os.path.join(d, 'replay.py')
-    with open(p, 'w') as f:
-      f.write(kern.PRELUDE % os.environ.get('VERIF_REPO', '/repo') + r"""
+  script = r"""
 import sys
 from parser_py import parse
 from compiler import universe, rule_translate, functors
 from type_inference.research import infer
-text, pred, must_reject = %r, %r, %r
-try:
-  universe.LogicaProgram(parse.ParseFile(text)['rule']).FormattedPredicateSql(pred)
-  got = 'sql'
-except (parse.ParsingException, rule_translate.RuleCompileException, functors.FunctorError, infer.TypeErrorCaughtException) as e:
-  got = 'diagnostic'
-except Exception as e:
-  got = 'internal ' + type(e).__name__
+DIAG = (parse.ParsingException, rule_translate.RuleCompileException, functors.FunctorError, infer.TypeErrorCaughtException)
+
+
+def outcome(text, pred):
+  try:
+    universe.LogicaProgram(parse.ParseFile(text)['rule']).FormattedPredicateSql(pred)
+    return 'sql'
+  except DIAG as e:
+    return 'diagnostic'
+  except Exception as e:
+    return 'internal ' + type(e).__name__
+
+
+history, (text, pred, must_reject) = %r, %r
+for t, p, _m in history:
+  outcome(t, p)
+got = outcome(text, pred)
 print(got)
 sys.exit(0 if (got == 'diagnostic') == must_reject and not got.startswith('internal') else 7)
-""" % (text, pred, must_reject))
-    r = subprocess.run([sys.executable, p], stdout=subprocess.PIPE, stderr=subprocess.STDOUT, text=True)
+"""
+  try:
+    p = os.path.join(d, 'replay.py')
+    results = []
+    # first alone in a fresh interpreter; if that does not reproduce, after the other programs of
+    # the catalogue (the harness compiles the whole catalogue once before the traced call)
+    for history in ([], [v for k, v in enumerate(variants_list) if k != i]):
+      with open(p, 'w') as f:
+        f.write(kern.PRELUDE % os.environ.get('VERIF_REPO', '/repo') + script % (history, (text, pred, must_reject)))
+      r = subprocess.run([sys.executable, p], stdout=subprocess.PIPE, stderr=subprocess.STDOUT, text=True)
+      results.append((len(history), r.returncode, r.stdout.strip()[-80:]))
+      if r.returncode == 7:
+        break
+    reproduced = results[-1][1] == 7
     what = ('an invalid program is compiled to SQL without a diagnostic' if must_reject else
             'a valid program is rejected')
-    return (r.returncode == 7, '%s (%s)' % (what, r.stdout.strip()[-80:]),
-            {'program': text, 'predicate': pred, 'must_be_rejected': must_reject, 'outcome': r.stdout[-300:],
+    if reproduced and results[-1][0]:
+      what += ' when %d other programs were compiled earlier in the process' % results[-1][0]
+    return (reproduced, '%s (%s)' % (what, results[-1][2]),
+            {'program': text, 'predicate': pred, 'must_be_rejected': must_reject, 'runs': results,
              'variant_group': group, 'variant_index': i})
   finally:
     shutil.rmtree(d, ignore_errors=True)
